@@ -190,6 +190,16 @@ pub struct Fixture {
 
 fn check_fixture(fx: &Fixture) -> CaseResult {
     let bytes = std::fs::read(&fx.path).map_err(|e| Fail::new("C03/INFRA/fixture", format!("cannot read fixture {}: {e}", fx.path)))?;
+    check_bytes(&bytes, &fx.path)?;
+    Ok(Meta::new(true).label(true, "fixture"))
+}
+
+/// A complete archive given as bytes (fixture or hand-assembled): the library's directory walk and opening
+/// against the independent reader. A declared tile-data section that is not in the file is tolerated (only the
+/// directory mapping is compared then).
+fn check_bytes(bytes: &[u8], name: &str) -> Result<(), Fail> {
+    let bytes = bytes.to_vec();
+    let fx = Fixture { path: name.to_string() };
     let h = crate::spec::SHeader::decode(&bytes).map_err(|e| Fail::new("C03/harness", e))?;
     // fixture 3 ("without_data") declares a tile-data section that is not in the file: only the
     // directory mapping is compared there.
@@ -234,8 +244,142 @@ fn check_fixture(fx: &Fixture) -> CaseResult {
             let o = (h.data_off + off) as usize;
             ensure!(g.as_deref() == Some(&bytes[o..o + *len as usize]), "C03/tile-bytes-differ", "fixture {}: tile {id} bytes differ", fx.path);
         }
+    } else {
+        // the archive still has to open (tile data is not touched by opening) and list the same ids
+        for how in 0..3u8 {
+            let a = open(&bytes, how)?.map_err(|e| Fail::new(format!("C03/open-err/{}", ["from_bytes", "from_reader", "from_async_reader"][usize::from(how)]), format!("{}: a spec-valid archive is rejected: {e}", fx.path)))?;
+            ensure!(a.ids() == want.keys().copied().collect::<Vec<_>>(), "C03/ids-differ", "{}: id listing differs", fx.path);
+        }
+        let mut r = futures::io::Cursor::new(&bytes[..]);
+        let got = guarded("read_directories_async", || block_on(pmtiles2::util::read_directories_async(&mut r, codec::to_lib(h.internal), (h.root_off, h.root_len), h.leaf_off, ..)))?
+            .map_err(|e| Fail::new("C03/read_directories-err/async", format!("{e}")))?;
+        let got: BTreeMap<u64, (u64, u32)> = got.into_iter().map(|(k, v)| (k, (v.offset, v.length))).collect();
+        ensure!(got == want, "C03/read_directories-differs/async", "{}: {} entries vs {} from the independent reader", fx.path, got.len(), want.len());
     }
-    Ok(Meta::new(true).label(true, "fixture"))
+    Ok(())
+}
+
+// ---- leaves whose compressed size sits right behind a decoder's buffer boundary --------------------------
+
+/// Two or three leaf directories stored back to back; the first one is steered so that its compressed size is
+/// `k * buf + rem` bytes, `buf` being the input-buffer size of one of the decoders in use (32 KiB flate2, 4 KiB
+/// brotli, 128 KiB + 3 zstd, 8 KiB for the async adapters) and `rem` small: a reader that infers where it stands
+/// from what its decoder has consumed, instead of seeking to every directory, ends up a few bytes off.
+#[derive(Clone, Debug, Serialize, Deserialize)]
+pub struct Steered {
+    pub codec: u8,
+    pub buf: u32,
+    pub rem: u8,
+    pub seed: u64,
+}
+
+fn steered_archive(c: &Steered) -> Option<Vec<u8>> {
+    use crate::spec::directory;
+    let p = codec::Params::default();
+    let buf = c.buf as usize;
+    let want = |l: usize| l > buf && l % buf == usize::from(c.rem);
+    // grow the first leaf until its blob passes a multiple of the buffer size, then nudge its last entry
+    let mut n = buf / 10 + 1;
+    let mut es = super::c06::entropy_entries(c.seed, n);
+    let mut blob = codec::compress(c.codec, &directory::encode(&es, true), p);
+    let mut guard = 0;
+    while blob.len() <= buf + usize::from(c.rem) && guard < 4000 {
+        n += ((buf + usize::from(c.rem) + 12 - blob.len()) / 12).max(1);
+        es = super::c06::entropy_entries(c.seed, n);
+        blob = codec::compress(c.codec, &directory::encode(&es, true), p);
+        guard += 1;
+    }
+    let mut r = crate::engine::Sm(c.seed ^ 0x57ee);
+    let mut rounds = 0;
+    'search: while !want(blob.len()) && rounds < 300 {
+        rounds += 1;
+        // the last entry's offset and length fields are free parameters: their varint widths move the size in
+        // single-byte steps (exactly so without a codec, nearly so with one)
+        let last = es.len() - 1;
+        for osh in [6u32, 13, 20, 27, 34, 41, 48, 55] {
+            for lsh in [0u32, 7, 14, 21] {
+                es[last].off = (1u64 << osh) + r.below(1 << osh.min(20));
+                es[last].len = (1u32 << lsh) + r.below(1 << lsh.min(6)) as u32;
+                blob = codec::compress(c.codec, &directory::encode(&es, true), p);
+                if want(blob.len()) {
+                    break 'search;
+                }
+            }
+        }
+        // not reachable with this entry count: one entry more or less
+        let m = blob.len() % buf;
+        if blob.len() > buf && m > usize::from(c.rem) && m < buf / 2 {
+            es.pop();
+        } else {
+            let extra = super::c06::entropy_entries(c.seed ^ rounds, 1)[0];
+            let l = es[es.len() - 1];
+            es.push(SEntry { id: l.id + 2 + r.below(50), ..extra });
+        }
+        blob = codec::compress(c.codec, &directory::encode(&es, true), p);
+    }
+    if !want(blob.len()) {
+        return None;
+    }
+    // a second and third, small leaf directly behind it
+    let last_id = es.last()?.id;
+    let leaf1: Vec<SEntry> = (0..5u64).map(|k| SEntry { id: last_id + 10 + 3 * k, off: 1000 * k, len: 100 + k as u32, run: 1 + (k % 2) as u32 }).collect();
+    let leaf2: Vec<SEntry> = (0..3u64).map(|k| SEntry { id: last_id + 1000 + k * 7, off: 50_000 + 10 * k, len: 9, run: 1 }).collect();
+    let b1 = codec::compress(c.codec, &directory::encode(&leaf1, true), p);
+    let b2 = codec::compress(c.codec, &directory::encode(&leaf2, true), p);
+    let root = vec![
+        SEntry { id: es[0].id, off: 0, len: blob.len() as u32, run: 0 },
+        SEntry { id: leaf1[0].id, off: blob.len() as u64, len: b1.len() as u32, run: 0 },
+        SEntry { id: leaf2[0].id, off: (blob.len() + b1.len()) as u64, len: b2.len() as u32, run: 0 },
+    ];
+    let rootb = codec::compress(c.codec, &directory::encode(&root, true), p);
+    let meta = codec::compress(c.codec, b"{}", p);
+    let mut out = vec![0u8; 127];
+    out.extend_from_slice(&rootb);
+    let meta_off = out.len() as u64;
+    out.extend_from_slice(&meta);
+    let leaf_off = out.len() as u64;
+    out.extend_from_slice(&blob);
+    out.extend_from_slice(&b1);
+    out.extend_from_slice(&b2);
+    let data_off = out.len() as u64;
+    out.extend_from_slice(&[7u8; 64]);
+    let n_addr: u64 = es.iter().chain(&leaf1).chain(&leaf2).map(|e| u64::from(e.run)).sum();
+    let h = crate::spec::SHeader {
+        root_off: 127,
+        root_len: rootb.len() as u64,
+        meta_off,
+        meta_len: meta.len() as u64,
+        leaf_off,
+        leaf_len: (blob.len() + b1.len() + b2.len()) as u64,
+        data_off,
+        data_len: 1 << 36,
+        n_addressed: n_addr,
+        n_entries: (es.len() + leaf1.len() + leaf2.len()) as u64,
+        n_contents: (es.len() + leaf1.len() + leaf2.len()) as u64,
+        clustered: 0,
+        internal: c.codec,
+        tile_comp: 1,
+        tile_type: 1,
+        min_zoom: 0,
+        max_zoom: 20,
+        min_lon: 0,
+        min_lat: 0,
+        max_lon: 0,
+        max_lat: 0,
+        center_zoom: 0,
+        center_lon: 0,
+        center_lat: 0,
+    };
+    out[..127].copy_from_slice(&h.encode());
+    Some(out)
+}
+
+fn check_steered(c: &Steered) -> CaseResult {
+    let Some(bytes) = steered_archive(c) else {
+        return Ok(Meta::new(false).label(true, "steering-gave-up"));
+    };
+    check_bytes(&bytes, &format!("steered leaf ({}; first leaf = k * {} + {} bytes)", codec::name(c.codec), c.buf, c.rem))?;
+    Ok(Meta::new(true).label(true, "leaf-ends-just-past-a-decoder-buffer-boundary").label(true, super::c01::codec_label(c.codec)))
 }
 
 fn walk_dirs_only(bytes: &[u8], h: &crate::spec::SHeader, off: u64, len: u64, depth: u32, tiles: &mut BTreeMap<u64, (u64, u32)>) -> Result<(), Fail> {
@@ -305,6 +449,14 @@ pub fn run(ctx: &Ctx) {
         wide.push(Case { l, open: (i % 3) as u8 });
     }
     run_list(ctx, "single-directory-over-16384-entries", &wide, check);
+    // leaves stored back to back whose compressed size sits right behind a decoder buffer boundary
+    let mut st: Vec<Steered> = Vec::new();
+    for (codec, buf) in [(2u8, 32_768u32), (2, 8192), (3, 4096), (3, 8192), (4, 131_075), (4, 8192), (1, 8192)] {
+        for rem in ctx.tier.pick(vec![1u8, 4, 8], vec![0u8, 1, 2, 3, 4, 5, 6, 7, 8, 9, 16, 64]) {
+            st.push(Steered { codec, buf, rem, seed: ctx.seed + u64::from(rem) * 31 + u64::from(buf) });
+        }
+    }
+    run_list(ctx, "leaf-size-steered-onto-decoder-buffer-boundaries", &st, check_steered);
     let fx = fixtures();
     if fx.len() < 3 {
         ctx.rec.infra("repository fixtures not found under <repo>/test");
@@ -318,7 +470,21 @@ pub fn run(ctx: &Ctx) {
 pub fn replay(sub: &str, case: &Value) -> Option<CaseResult> {
     match sub {
         "foreign-layouts" | "single-directory-over-16384-entries" => Some(check(&super::de(case)?)),
+        "leaf-size-steered-onto-decoder-buffer-boundaries" => Some(check_steered(&super::de(case)?)),
         "repository-fixtures" => Some(check_fixture(&super::de(case)?)),
         _ => None,
+    }
+}
+
+#[cfg(test)]
+mod steer_tests {
+    #[test]
+    fn leaf_size_steering_reaches_its_targets() {
+        for (codec, buf) in [(2u8, 32_768u32), (2, 8192), (3, 4096), (3, 8192), (4, 131_075), (4, 8192), (1, 8192)] {
+            for rem in [1u8, 4, 8] {
+                let c = super::Steered { codec, buf, rem, seed: 1 + u64::from(rem) * 31 + u64::from(buf) };
+                assert!(super::steered_archive(&c).is_some(), "steering gave up for codec {codec}, buffer {buf}, remainder {rem}");
+            }
+        }
     }
 }
